@@ -118,6 +118,14 @@ func (s *state) get(key string) string {
 			if s.guard != "" {
 				vc.assert(fmt.Sprintf("(=> (not %s) (= %s %s))", s.guard, res, old))
 			}
+			if prs := vc.privateRefs[key]; len(prs) > 0 && isHeapKey(key) {
+				if old == "" {
+					old = base.get(key)
+				}
+				for _, r := range prs {
+					vc.assert(fmt.Sprintf("(= (select %s %s) (select %s %s))", res, r, old, r))
+				}
+			}
 		}
 	default:
 		res = vc.freshConst("b!"+key, meta.Sort)
